@@ -127,18 +127,23 @@ class ProgGen:
         """expression over ports wider than 32 bits and constants that need more than 32 bits; never stored in a local
         or state variable (those are 32-bit integers in Verilog), only handed to prepare()/put() of a wide output"""
         rng = self.rng
-        # every intermediate must fit the narrowest context Verilog can give it: the narrowest wide port (40 bits)
-        WLIM = (1 << 40) - 1
+        # every intermediate must fit the narrowest context Verilog can give it: the narrowest wide port (40 bits; 72 and
+        # more for the programs that work on buses wider than 64 bits)
+        bits = getattr(self, 'wbits', 40)
+        WLIM = (1 << bits) - 1
         if depth >= 2 or rng.random() < 0.3:
             r = rng.random()
             if r < 0.45 and self.wide_ins:
                 n, w = rng.choice(self.wide_ins)
-                if w > 40:
-                    m = rng.choice([0xFFFFFFFFFF, (1 << 36) - 1, 0xFF00FF00FF])
+                if w > bits:
+                    m = rng.choice([WLIM, (1 << (bits - 4)) - 1, 0xFF00FF00FF00FF00FF00FF00FF00FF00FF00FF & WLIM])
                     return E('(self.%s.get() & %d)' % (n, m), 0, m, True)
                 return E('self.%s.get()' % n, 0, (1 << w) - 1, True)
             if r < 0.8:
-                v = rng.choice([(1 << 32) + 5, 0xFFFFFFFFFF, (1 << 40) - 1, 1 << 33, 0x123456789A, (1 << 38) + rng.getrandbits(20), 0xFFFFFFFF, 1 << 31])
+                c = [(1 << 32) + 5, 0xFFFFFFFFFF, WLIM, 1 << 33, 0x123456789A, (1 << (bits - 2)) + rng.getrandbits(20), 0xFFFFFFFF, 1 << 31]
+                if bits > 64:
+                    c += [1 << 64, (1 << 64) + 5, (1 << 64) - 1, 1 << (bits - 1), (1 << (bits - 1)) | 0x5A5A, (0xDEADBEEFCAFEF00D << 8) | 0x12, WLIM ^ (1 << 64)]
+                v = rng.choice(c)
                 return E(str(v), v, v, True)
             return self.leaf()
         a, b = self.wide_expr(depth + 1), self.wide_expr(depth + 1)
@@ -151,10 +156,10 @@ class ProgGen:
             if op == '+' and a.hi + b.hi <= WLIM:
                 return E('(%s + %s)' % (a.src, b.src), a.lo + b.lo, a.hi + b.hi, True)
             if op == '>>':
-                k = rng.randint(0, 36)
+                k = rng.randint(0, bits - 4)
                 return E('(%s >> %d)' % (a.src, k), a.lo >> k, a.hi >> k, True)
             if op == '<<':
-                k = rng.randint(0, 12)
+                k = rng.randint(0, 12 if bits <= 64 else 40)
                 if (a.hi << k) <= WLIM:
                     return E('(%s << %d)' % (a.src, k), a.lo << k, a.hi << k, True)
         return a
@@ -285,6 +290,11 @@ class ProgGen:
         if self.wide and rng.random() < 0.3:
             self.wide_ins = [('w%d' % i, rng.choice([40, 48, 64])) for i in range(rng.randint(1, 2))]
             self.wide_outs = [('x%d' % i, rng.choice([40, 64])) for i in range(rng.randint(1, 2))]
+            if rng.random() < 0.3:
+                # buses wider than 64 bits, constants of 2**64 and more
+                self.wide_ins = [('w%d' % i, rng.choice([72, 96, 128, 200])) for i in range(rng.randint(1, 2))]
+                self.wide_outs = [('x%d' % i, rng.choice([72, 128])) for i in range(rng.randint(1, 2))]
+                self.wbits = 72
         if self.seq:
             for i in range(rng.randint(1, 3)):
                 bound = rng.choice([1, 3, 7, 15, 255, 9, 99, 65535])
